@@ -25,6 +25,10 @@ class C02(E1Check):
         self._probes = None
         self.ivocab = [a for a in atoms if a[0] in ("cmp", "exists")][::3]
 
+    def worker_init(self):
+        super().worker_init()
+        self.probes()  # the probe tables must exist whichever configuration a worker sees first
+
     def rule(self):
         return (
             "BFS over histories of the standard alphabet; at every state every removal selector (vocabulary "
@@ -79,7 +83,7 @@ class C02(E1Check):
         return base + [e for e in extra if e not in have]
 
     def is_probe(self, op):
-        return op in self._probe_set or op in getattr(self, "_ladder_probes", ())
+        return op in getattr(self, "_probe_set", ()) or op in getattr(self, "_ladder_probes", ())
 
     def coverage_extra(self, res):
         return {"removal_probes_per_state": len(self.probes())}
